@@ -290,12 +290,21 @@ func classifySite(c *Ctx, e *E1, s mapSite) (string, string) {
 			if s.keys != nil && isRangeIndex(phi) && indexesKeys(phi, s) {
 				continue
 			}
+			// a map made on first use (`if m == nil { m = map… }`): the same map from then on, whatever key comes first
+			if lazyMapPhi(phi, s.loop) {
+				continue
+			}
 			carried = append(carried, phi)
 		}
 	}
 	// accumulate-then-sort: carried slices only appended to, sorted after the loop in this function
 	accOK := len(carried) > 0
 	for _, phi := range carried {
+		// a fill position: the counter only says where in a slice the next key goes, and that slice is sorted after
+		// the loop (keys[n] = k; n++ … sort.Strings(keys))
+		if fillPosition(phi, s) {
+			continue
+		}
 		if _, isSlice := phi.Type().Underlying().(*types.Slice); !isSlice {
 			accOK = false
 			continue
@@ -379,6 +388,123 @@ func classifySite(c *Ctx, e *E1, s mapSite) (string, string) {
 		return "accumulate-then-sort", "carried slices are only appended to and sorted after the loop; no early exit; no other shared effect"
 	}
 	return "independent", "no carried value, no early exit; every effect of the body is on fresh objects, the per-call options, per-key values or keyed accessors"
+}
+
+// fillPosition: phi is an integer advanced by one per iteration whose only other use is as the index of stores
+// into one slice, and that slice is handed to package sort after the loop.
+func fillPosition(phi *ssa.Phi, s mapSite) bool {
+	if bt, ok := phi.Type().Underlying().(*types.Basic); !ok || bt.Info()&types.IsInteger == 0 {
+		return false
+	}
+	refs := phi.Referrers()
+	if refs == nil {
+		return false
+	}
+	var target ssa.Value
+	for _, ref := range *refs {
+		switch x := ref.(type) {
+		case *ssa.BinOp:
+			k, isK := ConstInt(x.Y)
+			if x.Op != token.ADD || x.X != ssa.Value(phi) || !isK || k != 1 {
+				return false
+			}
+			// the sum only feeds the counter
+			if xr := x.Referrers(); xr != nil {
+				for _, r2 := range *xr {
+					if p2, isPhi := r2.(*ssa.Phi); !isPhi || p2 != phi {
+						return false
+					}
+				}
+			}
+		case *ssa.IndexAddr:
+			if x.Index != ssa.Value(phi) {
+				return false
+			}
+			if target != nil && target != x.X {
+				return false
+			}
+			target = x.X
+			if xr := x.Referrers(); xr != nil {
+				for _, r2 := range *xr {
+					if st, isSt := r2.(*ssa.Store); !isSt || st.Addr != ssa.Value(x) {
+						return false
+					}
+				}
+			}
+		case *ssa.DebugRef:
+		default:
+			return false
+		}
+	}
+	if target == nil {
+		return false
+	}
+	for _, ci := range CallsIn(s.fn, false) {
+		g := ci.Common().StaticCallee()
+		if g == nil || g.Pkg == nil || g.Pkg.Pkg.Path() != "sort" || s.loop[ci.(ssa.Instruction).Block()] {
+			continue
+		}
+		for _, a := range ci.Common().Args {
+			if a == target {
+				return true
+			}
+			for _, src := range Sources(a) {
+				if src == target {
+					return true
+				}
+			}
+		}
+	}
+	return false
+}
+
+// lazyMapPhi: a loop-carried map that is only ever replaced by a fresh map while it is still nil.
+func lazyMapPhi(phi *ssa.Phi, loop map[*ssa.BasicBlock]bool) bool {
+	if _, isMap := phi.Type().Underlying().(*types.Map); !isMap {
+		return false
+	}
+	seen := map[ssa.Value]bool{phi: true}
+	var leafOK func(v ssa.Value) bool
+	leafOK = func(v ssa.Value) bool {
+		if seen[v] {
+			return true
+		}
+		seen[v] = true
+		switch x := v.(type) {
+		case *ssa.Phi:
+			if !loop[x.Block()] {
+				return false
+			}
+			for _, e := range x.Edges {
+				if !leafOK(e) {
+					return false
+				}
+			}
+			return true
+		case *ssa.MakeMap:
+			for _, cd := range ExpandConds(DomConds(x.Block())) {
+				bo, ok := cd.V.(*ssa.BinOp)
+				if !ok {
+					continue
+				}
+				isNilTest := bo.Op == token.EQL && cd.Truth || bo.Op == token.NEQ && !cd.Truth
+				if isNilTest && (bo.X == ssa.Value(phi) && IsNilConst(bo.Y) || bo.Y == ssa.Value(phi) && IsNilConst(bo.X)) {
+					return true
+				}
+			}
+			return false
+		}
+		return false
+	}
+	for i, ed := range phi.Edges {
+		if !loop[phi.Block().Preds[i]] {
+			continue
+		}
+		if !leafOK(ed) {
+			return false
+		}
+	}
+	return true
 }
 
 // flowsFromPhi: v is phi, or computed from it by phis, appends to it, re-slicing or interface boxing.
